@@ -1,1 +1,2 @@
 //! Instrumented implementations of the I/O traits flipdot is generic over.
+pub mod port;
